@@ -469,7 +469,7 @@ static inline void save_to_qmem_pingordata(int userid, struct query *q)
 	if (q->name[0] == 'P' || q->name[0] == 'p') {
 		/* Ping packet */
 
-		size_t cmcsize = sizeof(cmc);
+		size_t cmcsize = sizeof(cmc) - 1;	/* decoder adds a \0 after the data */
 		char *cp = strchr(q->name, '.');
 
 		if (cp == NULL)
